@@ -15,11 +15,13 @@ import vlib
 from vlib import Report, coq_prove, cargo_build, run_bin, coq_eval
 
 (NEW, CLONE, CURRENT, ORCURRENT, DROP, ENTER, DROPGUARD, ENTERED, EXITOWNED, SCOPEBEGIN, SCOPEEND, RECORD, FOLLOWS,
- INSTRUMENT, POLLBEGIN, POLLEND, INTOINNER, SETDEFAULT, CLOSESCOPE) = range(19)
+ INSTRUMENT, POLLBEGIN, POLLEND, INTOINNER, SETDEFAULT, CLOSESCOPE, QUERY, INNERACCESS, SWAP, CLONEFUT, WITHCOLL) = range(24)
 OPNAMES = ["New", "Clone", "Current", "OrCurrent", "Drop", "Enter", "DropGuard", "Entered", "ExitOwned", "ScopeBegin",
-           "ScopeEnd", "Record", "FollowsFrom", "Instrument", "PollBegin", "PollEnd", "IntoInner", "SetDefault", "CloseScope"]
+           "ScopeEnd", "Record", "FollowsFrom", "Instrument", "PollBegin", "PollEnd", "IntoInner", "SetDefault", "CloseScope",
+           "Query", "InnerAccess", "SpanMutSwap", "CloneFut", "WithCollector"]
 TAGS = {1: "new_span", 2: "clone_span", 3: "try_close", 4: "enter", 5: "exit", 6: "record", 7: "record_follows_from",
-        8: "mark:poll-body", 9: "mark:inner-drop"}
+        8: "mark:poll-body", 9: "mark:inner-drop", 10: "mark:inner-touched"}
+FUTS = ('f', 'w', 'i')   # Instrumented / WithDispatch<Instrumented> / Instrumented<WithDispatch>
 NOCOLL = 57005
 
 
@@ -28,7 +30,7 @@ NOCOLL = 57005
 
 class Own:
     def __init__(self):
-        self.kinds = {}     # name -> 'h' | 'f'
+        self.kinds = {}     # name -> 'h' | 'f' | 'w' | 'i'   (see FUTS)
         self.ents = []      # [kind, holder, tid]  oldest first; kind = ('g', name) | 's' | 'p' | 'o'
 
     def live(self, n):
@@ -59,11 +61,17 @@ class Own:
         on = self.on(n)
         return len(on) == 1 and on[0][0] == 'o' and on[0][2] == t
 
+    def anyfut(self, n):
+        return self.kinds.get(n) in FUTS
+
+    def in_wd_poll(self, t):
+        return any(e[2] == t and e[0] == 'p' and self.kinds.get(e[1]) in ('w', 'i') for e in self.ents)
+
     def ok(self, op):
         t, code, a, b, c, d, e = op
         k = self.kinds
         if code == NEW:
-            return not self.live(a) and (d != 2 or self.readable(e))
+            return not self.live(a) and (d not in (2, 3) or self.readable(e)) and d <= 4
         if code == CLONE:
             return self.readable(a) and not self.live(b)
         if code == CURRENT:
@@ -87,13 +95,23 @@ class Own:
             f = self.top_frame(t)
             return f is not None and f[0] == 's'
         if code == FOLLOWS:
-            return self.readable(a) and self.readable(b)
+            return self.readable(a) and (c >= 2 or self.readable(b))
         if code in (POLLBEGIN, INTOINNER):
-            return k.get(a) == 'f' and self.free(a)
+            return self.anyfut(a) and self.free(a)
         if code == POLLEND:
             f = self.top_frame(t)
             return f is not None and f[0] == 'p'
-        return code in (SETDEFAULT, CLOSESCOPE)
+        if code == QUERY:
+            return self.readable(a)
+        if code == INNERACCESS:
+            return self.anyfut(a) and (self.readable(a) if b % 2 == 0 else self.free(a))
+        if code == SWAP:
+            return self.anyfut(a) and self.free(a) and k.get(b) == 'h' and self.free(b)
+        if code == CLONEFUT:
+            return self.anyfut(a) and self.readable(a) and not self.live(b)
+        if code == WITHCOLL:
+            return k.get(a) == 'f' and self.free(a)
+        return code in (SETDEFAULT, CLOSESCOPE) and not self.in_wd_poll(t)
 
     def apply(self, op):
         t, code, a, b, c, d, e = op
@@ -122,16 +140,21 @@ class Own:
                     del self.ents[i]
                     break
         elif code == INSTRUMENT:
-            self.kinds[a] = 'f'
+            self.kinds[a] = 'f' if c == 0 else 'i'
+        elif code == WITHCOLL:
+            self.kinds[a] = 'w'
+        elif code == CLONEFUT:
+            self.kinds[b] = self.kinds[a]
         elif code == POLLBEGIN:
             self.ents.append(['p', a, t])
         elif code == INTOINNER:
             del self.kinds[a]
 
 
-WEIGHTS = [(NEW, 12), (CLONE, 9), (CURRENT, 5), (ORCURRENT, 3), (DROP, 8), (ENTER, 9), (DROPGUARD, 8), (ENTERED, 5),
-           (EXITOWNED, 6), (SCOPEBEGIN, 5), (SCOPEEND, 5), (RECORD, 3), (FOLLOWS, 3), (INSTRUMENT, 6), (POLLBEGIN, 14),
-           (POLLEND, 10), (INTOINNER, 3), (SETDEFAULT, 3), (CLOSESCOPE, 2)]
+WEIGHTS = [(NEW, 12), (CLONE, 9), (CURRENT, 5), (ORCURRENT, 3), (DROP, 8), (ENTER, 9), (DROPGUARD, 8), (ENTERED, 6),
+           (EXITOWNED, 6), (SCOPEBEGIN, 5), (SCOPEEND, 5), (RECORD, 3), (FOLLOWS, 3), (INSTRUMENT, 7), (POLLBEGIN, 15),
+           (POLLEND, 11), (INTOINNER, 3), (SETDEFAULT, 3), (CLOSESCOPE, 2), (QUERY, 3), (INNERACCESS, 3), (SWAP, 3),
+           (CLONEFUT, 3), (WITHCOLL, 4)]
 
 
 def gen_program(rng, n_main, threads, colls, malformed):
@@ -149,22 +172,42 @@ def gen_program(rng, n_main, threads, colls, malformed):
         r = rng.randrange
         if code == NEW:
             how, en = r(2), (0 if rng.random() < 0.2 else 1)
-            pk = rng.choice([0, 1, 1, 2])
-            return [t, NEW, r(NH), how, en, pk, (rng.choice(hs) if hs and pk == 2 else r(NH))]
+            pk = rng.choice([0, 1, 1, 2, 2, 3, 4])
+            return [t, NEW, r(NH), how, en, pk, (rng.choice(hs) if hs and pk in (2, 3) else r(NH))]
         if code == CLONE:
             return [t, CLONE, (rng.choice(hs) if hs else r(NH)), r(NH), 0, 0, 0]
         if code == CURRENT:
             return [t, CURRENT, r(NH), 0, 0, 0, 0]
-        if code in (ORCURRENT, DROP, ENTERED, EXITOWNED, SCOPEBEGIN, RECORD, INSTRUMENT, POLLBEGIN, INTOINNER):
+        if code in (ORCURRENT, DROP, ENTERED, EXITOWNED, SCOPEBEGIN, RECORD, INSTRUMENT, POLLBEGIN, INTOINNER, QUERY,
+                    INNERACCESS, WITHCOLL):
             pool = hs
-            if code in (POLLBEGIN, INTOINNER) and rng.random() < 0.8:
+            if code in (POLLBEGIN, INTOINNER, INNERACCESS) and rng.random() < 0.8:
+                pool = [h for h in hs if own.kinds[h] in FUTS] or hs
+            if code == WITHCOLL and rng.random() < 0.8:
                 pool = [h for h in hs if own.kinds[h] == 'f'] or hs
             if code == EXITOWNED and rng.random() < 0.8:
                 pool = [e[1] for e in own.ents if e[0] == 'o' and e[2] == t] or hs
             x = [t, code, (rng.choice(pool) if pool else r(NH)), 0, 0, 0, 0]
             if code == INSTRUMENT:
                 x[3] = r(2)
+                x[4] = rng.choice([0, 0, 0, 1, 2 + r(colls + 1)])
+            elif code == RECORD and rng.random() < 0.6:
+                x[3] = rng.randrange(1, 5)
+                x[4] = r(1 << x[3])
+            elif code == QUERY:
+                x[3] = r(4)
+            elif code == INNERACCESS:
+                x[3] = r(4)
+            elif code == WITHCOLL:
+                x[3] = rng.choice([0, 1 + r(colls + 1)])
             return x
+        if code in (SWAP, CLONEFUT):
+            fs = [h for h in hs if own.kinds[h] in FUTS]
+            f = rng.choice(fs) if fs and rng.random() < 0.9 else (rng.choice(hs) if hs else r(NH))
+            if code == SWAP:
+                hh = [h for h in hs if own.kinds[h] == 'h']
+                return [t, SWAP, f, (rng.choice(hh) if hh else r(NH)), 0, 0, 0]
+            return [t, CLONEFUT, f, r(NH), 0, 0, 0]
         if code == ENTER:
             return [t, ENTER, (rng.choice(hs) if hs else r(NH)), r(NG), 0, 0, 0]
         if code == DROPGUARD:
@@ -175,7 +218,7 @@ def gen_program(rng, n_main, threads, colls, malformed):
         if code == POLLEND:
             return [t, POLLEND, rng.choice([0, 0, 0, 1, 2]), 0, 0, 0, 0]
         if code == FOLLOWS:
-            return [t, FOLLOWS, (rng.choice(hs) if hs else r(NH)), (rng.choice(hs) if hs else r(NH)), 0, 0, 0]
+            return [t, FOLLOWS, (rng.choice(hs) if hs else r(NH)), (rng.choice(hs) if hs else r(NH)), rng.choice([0, 0, 1, 1, 2]), 0, 0]
         if code == SETDEFAULT:
             return [t, SETDEFAULT, rng.choice([0] + list(range(1, colls + 1)) * 3), 0, 0, 0, 0]
         return [t, CLOSESCOPE, 0, 0, 0, 0, 0]
@@ -233,16 +276,23 @@ def coq_op(op):
     t, code, a, b, c, d, e = op
     if code == NEW:
         how = "Direct" if b == 1 else "(ViaMacro %s)" % ("true" if c else "false")
-        par = ["PRoot", "PCtx", "(PExp %d)" % e][d]
+        par = ["PRoot", "PCtx", "(PExp %d)" % e, "(PExpId %d)" % e, "PNoneId"][d]
         body = "New %d %s %s" % (a, how, par)
-    elif code in (CLONE, ENTER, FOLLOWS):
+    elif code in (CLONE, ENTER, QUERY, INNERACCESS, SWAP, CLONEFUT):
         body = "%s %d %d" % (OPNAMES[code], a, b)
+    elif code == FOLLOWS:
+        body = "FollowsFrom %d %s" % (a, ["(FSpan %d)" % b, "(FId %d)" % b, "FNone"][min(c, 2)])
+    elif code == RECORD:
+        ln, mask = (1, 1) if b == 0 else (b, c)
+        body = "Record %d [%s]" % (a, "; ".join("true" if (mask >> i) & 1 else "false" for i in range(ln)))
+    elif code == WITHCOLL:
+        body = "WithCollector %d %s" % (a, "None" if b == 0 else "(Some %d)" % (b - 1))
     elif code == SCOPEEND:
         body = "ScopeEnd %s" % ("true" if a else "false")
     elif code == POLLEND:
         body = "PollEnd %s" % ["Pending", "Ready", "Panicked"][a]
     elif code == INSTRUMENT:
-        body = "Instrument %d %s" % (a, "true" if b else "false")
+        body = "Instrument %d %s %s" % (a, "true" if b else "false", "WNone" if c == 0 else "WCurrent" if c == 1 else "(WWith %d)" % (c - 2))
     elif code == CLOSESCOPE:
         body = "CloseScope"
     else:
@@ -274,7 +324,7 @@ def oracle(case, out):
     ids = {}          # holder name -> id+1 as reported by the real Span::id()  (0 = disabled)
     defaults = {}     # thread -> stack
     polled = {}       # future name -> last poll result
-    last_guard = {}
+    disp = {}         # WithDispatch-wrapped future -> the collector its wrapper captured
 
     def bad(what, i, **kw):
         viol.append((what, dict(kw, op_index=i, op=pretty([ops[i]])[0])))
@@ -290,13 +340,20 @@ def oracle(case, out):
             mine = [e for e in own.ents if e[2] == t]
             if mine and mine[-1][0] != ('g', a):
                 flags.add("ooo-guard-drop")
-        if code == DROP and own.kinds.get(a) == 'f' and polled.get(a) == 0:
+        if code == DROP and own.anyfut(a) and polled.get(a) == 0:
             flags.add("fut-dropped-between-polls")
-        if code == DROP and own.kinds.get(a) == 'f' and a not in polled:
+        if code == DROP and own.anyfut(a) and a not in polled:
             flags.add("fut-dropped-unpolled")
+        if code in (DROP, ENTERED, INSTRUMENT, INTOINNER, ORCURRENT, SWAP) and ids.get(a, 0) > 0:
+            # the handle is consumed / moved on this thread while the same span is entered on another thread
+            if any(ids.get(e[1], 0) == ids[a] and e[2] != t for e in own.ents):
+                flags.add("moved-while-entered-elsewhere")
+        if code == POLLBEGIN and own.kinds.get(a) in ('w', 'i'):
+            flags.add("with-dispatch-poll")
         # --- expected silence / instrumentation shape (judged before the state changes)
         refs = {NEW: ([op[6]] if op[5] == 2 else []), CLONE: [a], DROP: [a], ENTER: [a], ENTERED: [a], EXITOWNED: [a],
-                SCOPEBEGIN: [a], RECORD: [a], FOLLOWS: [a], INSTRUMENT: [a], POLLBEGIN: [a], INTOINNER: [a]}.get(code)
+                SCOPEBEGIN: [a], RECORD: [a], FOLLOWS: [a], INSTRUMENT: [a], POLLBEGIN: [a], INTOINNER: [a],
+                QUERY: [a], INNERACCESS: [a], SWAP: [a, b], CLONEFUT: [a], WITHCOLL: [a]}.get(code)
         if code == DROPGUARD:
             g = own.find_guard(a)
             refs = [g[1]] if g else []
@@ -307,7 +364,7 @@ def oracle(case, out):
         if refs is not None and code != NEW and all(ids.get(r, 0) == 0 for r in refs) and calls:
             bad("a disabled span caused collector calls", i, calls=calls)
         sid = None
-        if code in (POLLBEGIN, DROP, INTOINNER) and own.kinds.get(a) == 'f':
+        if code in (POLLBEGIN, DROP, INTOINNER) and own.anyfut(a):
             sid = ids.get(a, 0) - 1
             en = sid >= 0 and sid != NOCOLL
             shape = [(e[2], e[3], e[1]) for e in rec["e"]]
@@ -352,21 +409,37 @@ def oracle(case, out):
                     depth[(sid_, et)] -= 1
         # --- handles made / dropped, as the real Span::id() reports them
         res, dr, pre = rec["res"], rec["dr"], rec["pre"]
-        if code in (NEW, CLONE, CURRENT) or (code == ORCURRENT and pre == 0):
+        if code in (NEW, CLONE, CURRENT, CLONEFUT) or (code == ORCURRENT and pre == 0):
             if res and res - 1 != NOCOLL:
                 made[res - 1] = made.get(res - 1, 0) + 1
         if dr and dr - 1 != NOCOLL:
             dropped[dr - 1] = dropped.get(dr - 1, 0) + 1
         if code in (NEW, CURRENT, ORCURRENT, EXITOWNED):
             ids[a] = res
-        elif code == CLONE:
+        elif code in (CLONE, CLONEFUT):
             ids[b] = res
+        elif code == SWAP:
+            ids[a], ids[b] = pre, res
         # --- state
         if code == POLLEND:
             f = own.top_frame(t)
             polled[f[1]] = a
+        if code == POLLEND and own.kinds.get(own.top_frame(t)[1]) in ('w', 'i') and defaults.get(t):
+            defaults[t].pop()
         if code == INSTRUMENT:
             polled.pop(a, None)
+            if op[4] == 1:
+                disp[a] = cur
+            elif op[4] >= 2:
+                disp[a] = op[4] - 2
+        if code == WITHCOLL:
+            disp[a] = cur if b == 0 else b - 1
+        if code == CLONEFUT:
+            polled.pop(b, None)
+            if a in disp:
+                disp[b] = disp[a]
+        if code == POLLBEGIN and own.kinds.get(a) in ('w', 'i'):
+            defaults.setdefault(t, []).append(disp.get(a, 0))
         if code == SETDEFAULT:
             defaults.setdefault(t, []).append(a)
         if code == CLOSESCOPE and defaults.get(t):
@@ -446,12 +519,15 @@ def model_obs(ctx, cases, tag="cases"):
 
 def run(ctx):
     rep = Report(ctx)
-    rep.rule = ("seeded random programs over 19 op kinds (New via span!/direct x root/contextual/explicit parent x enabled?, Clone, "
-                "Current, OrCurrent, Drop, Enter/DropGuard in any order, Entered/ExitOwned, in_scope begin/end (return or unwind), "
-                "Record, FollowsFrom, Instrument (tracing / tracing-futures), Poll begin/end (Pending/Ready/panic), IntoInner, "
-                "SetDefault/CloseScope) on 1-3 OS threads, 2-3 recording collectors + no collector; non-trivial = the program has a "
-                "clone AND (an out-of-order guard drop OR a future dropped between polls OR a collector call made while the "
-                "thread's default was a different collector / none); distinct = distinct op lists")
+    rep.rule = ("seeded random programs over 24 op kinds (New via span!/direct x root/contextual/&Span/Option<Id>/None parent x enabled?, "
+                "Clone, Current, OrCurrent, Drop, Enter/DropGuard in any order, Entered/ExitOwned, in_scope begin/end (return or unwind), "
+                "Record chains incl. missing fields, FollowsFrom &Span/Option<Id>/None, is_none/is_disabled/id/metadata, Instrument "
+                "(tracing / tracing-futures; plain or around a WithDispatch), with_collector / with_current_collector around an "
+                "Instrumented, Poll begin/end (Pending/Ready/panic), IntoInner, inner/inner_mut/inner_pin_ref/inner_pin_mut, "
+                "mem::swap through span_mut, Clone for Instrumented/WithDispatch, SetDefault/CloseScope) on 1-3 (thorough: 1-6) OS threads, "
+                "2-3 recording collectors + no collector; non-trivial = the program has a clone AND (an out-of-order guard drop OR a "
+                "future dropped between polls OR a collector call made while the thread's default was a different collector / none "
+                "OR a handle consumed on one thread while its span is entered on another); distinct = distinct op lists")
     rep.trusted_base = [
         "Coq 8.16.1 kernel + vm_compute", "harness h_spanapi.rs (recording Collect impl, re-entrant op loops, ownership validator)",
         "Python generator / differ / oracle (driver/props/c03.py)", "rustc's borrow checker and Send/Sync checks are represented by "
@@ -462,7 +538,8 @@ def run(ctx):
         "current_span is the innermost span entered on the calling thread (exit removes the most recent occurrence)",
         "no mem::forget / leaks of handles or guards; the `log` feature is off",
         "default-collector scopes are closed innermost-first (out-of-order DefaultGuard drops are C02's subject)",
-        "Instrumented::span_mut / Clone for Instrumented are not in the op language"]
+        "a thread does not open / close default-collector scopes of its own while it is inside the poll of a WithDispatch-wrapped "
+        "future (the wrapper's DefaultGuard sits in that stack frame; out-of-order DefaultGuard drops are C02's subject)"]
     # ---- leg A
     rep.proof = coq_prove(ctx, "C03", ["theories/Properties/C03.vo"])
     # ---- cases
@@ -477,7 +554,7 @@ def run(ctx):
                 c["ops"] = [(o + [0] * 7)[:7] for o in c["ops"]]
                 cases.append(c)
     for k in range(n):
-        threads = rng.choice([1, 2, 2, 3])
+        threads = rng.choice([1, 2, 2, 3]) if not ctx.thorough() else rng.choice([1, 2, 2, 3, 4, 6])
         colls = rng.choice([2, 2, 3])
         malformed = rng.random() < 0.12
         size = rng.choice([6, 12, 20, 30, 30, 45, 70])
@@ -549,7 +626,8 @@ def run(ctx):
             if prof == "debug":
                 for f in flags:
                     rep.count("flag:" + f)
-                if "clone" in flags and (flags & {"ooo-guard-drop", "fut-dropped-between-polls", "foreign-default"}):
+                if "clone" in flags and (flags & {"ooo-guard-drop", "fut-dropped-between-polls", "foreign-default",
+                                                  "moved-while-entered-elsewhere"}):
                     rep.nontrivial.add(key)
             if model is not None:
                 m_ops, m_ok = model[c["id"]]
